@@ -101,8 +101,21 @@ struct State {
 /// All oracles for one pair.
 fn check_pair(ctx: &mut Ctx, st: &mut State, a: &Model, b: &Model, with_reference: bool, origin: &str) {
     let case = json!({"origin": origin, "a": model_json(a), "b": model_json(b)});
-    let (sa, sb) = match (build_raw(a), build_raw(b)) {
+    // every fourth pair: the builders were also offered an item that cannot fit
+    // (refused; the snapshot must be the same as if it had never been offered)
+    let probe = (a.len() + 3 * b.len() + a.values().chain(b.values()).map(|d| d.len()).sum::<usize>()) % 4 == 0;
+    let built = if probe {
+        ctx.count("pairs_built_after_a_refused_item", 1);
+        (verif_harness::snapgen::build_raw_with_refusal(a, a.len() / 2), verif_harness::snapgen::build_raw_with_refusal(b, b.len() / 3))
+    } else {
+        (build_raw(a), build_raw(b))
+    };
+    let (sa, sb) = match built {
         (Ok(x), Ok(y)) => (x, y),
+        (Err(e), _) | (_, Err(e)) if e == "oversized-item-accepted" => {
+            ctx.violation("delta-apply", "build", "oversized-item-accepted", json!({}), case);
+            return;
+        }
         _ => {
             ctx.count("builder_refused", 1);
             return;
@@ -153,6 +166,20 @@ fn check_pair(ctx: &mut Ctx, st: &mut State, a: &Model, b: &Model, with_referenc
         }
         if !w.is_empty() {
             return Err(("warning-ints".into(), format!("{:?}", w.0)));
+        }
+        if probe {
+            // B itself (built after a refused item) serializes to something that reads back as B
+            let mut tmp = Vec::new();
+            let n = sb.write_to_ints(&mut tmp, &mut ints).map_err(|_| ("write-snapshot-ints".to_string(), "capacity".to_string()))?.len();
+            let want_n = verif_harness::snapgen::model_size(b) / 4;
+            if n != want_n {
+                return Err(("snapshot-after-refused-item".into(), format!("serializes to {} ints, expected {}", n, want_n)));
+            }
+            let mut w = Warnings::new();
+            out.read_from_ints(&mut w, &ints[..n]).map_err(|e| ("snapshot-after-refused-item".to_string(), format!("reread:{:?}", e)))?;
+            if &raw_to_model(out) != b {
+                return Err(("snapshot-after-refused-item".into(), first_difference(&raw_to_model(out), b)));
+            }
         }
         Ok(())
     });
